@@ -620,7 +620,7 @@ def lifecycle_train_cases(tier, seed):
 def soak_cases(tier, seed):
     """a client that has lived through hundreds of outages: long event sequences (thousands of operations, failures, recoveries
     and clock advances), on both back-ends; every rule is judged at every step as in the short histories"""
-    n = 1500 if tier == "quick" else 15000
+    n = 1500 if tier == "quick" else 6000
     pool = [["op", "get", 0], ["op", "get", 1], ["op", "set", 0], ["op", "set_many", 0], ["op", "get_many", 1], ["op", "get", 2], ["adv", 0.5], ["adv", 1.5], ["adv", 61],
             ["fail", 0, "refused"], ["heal", 0], ["fail", 1, "timeout"], ["heal", 1], ["op", "incr", 0], ["op", "delete", 1], ["adv", 1.5], ["op", "get", 0], ["heal", 0]]
     for ra in (0, 1, 2):
